@@ -5,12 +5,33 @@
 #include "common.h"
 #include <asl/Var.h>
 #include <math.h>
+#include <new>
+#include <stdlib.h>
 using namespace asl;
 using namespace vh;
 
 static const int NS = 8;
 static Var* slot[NS];
 static int rcOffA = 0, rcOffO = 0; // references held by the temporaries of array()/object() themselves
+
+// every Var the harness constructs lives in storage filled with 0xAB first: a constructor that leaves a member
+// unset shows (Var(Var::INT) etc. before 11663a3)
+static void* poisoned() { void* p = ::operator new(sizeof(Var)); memset(p, 0xAB, sizeof(Var)); return p; }
+#define NEWVAR new (poisoned()) Var
+
+// what String::operator int() (myatoi) gives: optional sign, digits up to the first other byte, modulo 2^32
+static long long keyIndex(const std::string& k)
+{
+	size_t i = 0; bool neg = false;
+	if (i < k.size() && k[i] == '-') { neg = true; i++; }
+	else if (i < k.size() && k[i] == '+') i++;
+	unsigned long long y = 0;
+	for (; i < k.size() && k[i] >= '0' && k[i] <= '9'; i++) y = (10 * y + (unsigned)(k[i] - '0')) % 4294967296ULL;
+	unsigned long long u = neg ? (4294967296ULL - y) % 4294967296ULL : y;
+	return u < 2147483648ULL ? (long long)u : (long long)u - 4294967296LL;
+}
+
+static unsigned long long unum(const std::string& s) { return strtoull(s.c_str(), NULL, 10); }
 
 static String S(const std::string& s) { return String(s.data(), (int)s.size()); }
 
@@ -95,8 +116,15 @@ static Tgt resolveMut(const Path& p, bool guard, const SrcRef* src = NULL)
 {
 	Tgt t; t.v = slot[p.root]; t.parent = NULL;
 	for (size_t n = 0; n < p.steps.size(); n++) {
-		const Step& s = p.steps[n];
+		Step s = p.steps[n];
 		Var* cur = t.v;
+		bool viaString = false;
+		if (s.isKey && cur->is(Var::ARRAY)) {
+			// operator[](const String&) on an ARRAY is operator[]((int)key) (7407dbc); a negative index is outside the domain
+			long long j = keyIndex(s.k);
+			if (j < 0) { t.err = "badarg"; return t; }
+			viaString = true; s.isKey = false; s.i = (int)j;
+		}
 		if (guard && invalidatesSource(cur, s, src)) { t.err = "skip-source-moved"; return t; }
 		if (!s.isKey) {
 			if (cur->is(Var::ARRAY)) {
@@ -107,7 +135,7 @@ static Tgt resolveMut(const Path& p, bool guard, const SrcRef* src = NULL)
 				Info f = info(*cur);
 				if (guard && !cur->has(String(s.i)) && f.len >= f.cap && f.rc > 1) { t.err = "skip-shared-growth"; return t; }
 			}
-			Var* nxt = &(*cur)[s.i];
+			Var* nxt = viaString ? &(*cur)[S(p.steps[n].k)] : &(*cur)[s.i];
 			if (nxt != cur) t.parent = cur;
 			t.v = nxt;
 		}
@@ -175,8 +203,9 @@ static std::string dy(double d)
 	int e = 53 - ex;
 	while (m % 2 == 0) { m /= 2; e--; }
 	if (e < 0) { // an integer
-		if (fabs(d) >= 9.0e18) return "big";
-		m = (long long)d; e = 0;
+		char buf[400];
+		snprintf(buf, sizeof(buf), "%.0f", d); // glibc prints the exact integer value
+		return std::string(buf) + "/0";
 	}
 	return str(m) + "/" + str(e);
 }
@@ -241,7 +270,7 @@ static void replaceSlot(int k, Var* n) { delete slot[k]; slot[k] = n; }
 
 static void reset()
 {
-	for (int i = 0; i < NS; i++) { delete slot[i]; slot[i] = new Var; }
+	for (int i = 0; i < NS; i++) { delete slot[i]; slot[i] = NEWVAR; }
 }
 
 static std::string step(const Toks& t0)
@@ -262,23 +291,35 @@ static std::string step(const Toks& t0)
 		Var::Type ty = Var::NONE;
 		if (k == "t") { if (n != 4) return "bad-op"; ty = typeOf(t[3], tok); if (!tok) return "bad-op"; }
 		else if (k == "d" || k == "f") { if (n != 5) return "bad-op"; }
-		else if (k == "i" || k == "u" || k == "l" || k == "L" || k == "UL" || k == "b" || k == "s" || k == "c") { if (n != 4) return "bad-op"; }
+		else if (k == "i" || k == "u" || k == "l" || k == "L" || k == "UL" || k == "Q" || k == "b" || k == "s" || k == "c") { if (n != 4) return "bad-op"; }
 		else return "bad-op";
 		Tgt g = resolveMut(p, guard);
 		if (!g.err.empty()) return g.err;
 		Var& v = *g.v;
-		if (k == "t" && (ty == Var::NUMBER || ty == Var::BOOL || ty == Var::INT || ty == Var::FLOAT)) return "badarg"; // Var(Type) leaves the payload uninitialised
 		if (k == "i") v = (int)num(t[3]);
 		else if (k == "u") v = (unsigned)num(t[3]);
 		else if (k == "l") v = (Long)num(t[3]);
 		else if (k == "L") v = (long)num(t[3]);
 		else if (k == "UL") v = (unsigned long)num(t[3]);
+		else if (k == "Q") v = (ULong)unum(t[3]);
 		else if (k == "d") v = litD(t, 3);
 		else if (k == "f") v = (float)litD(t, 3);
 		else if (k == "b") v = (t[3] == "1");
 		else if (k == "s") { Exact e(unhex(t[3])); v = String(e.p, (int)e.n); }
 		else if (k == "c") { Exact e(unhex(t[3])); v = (const char*)e.p; }
-		else if (k == "t") v = ty;
+		else if (k == "t") { Var* tmp = NEWVAR(ty); v = *tmp; delete tmp; } // v = Var::TYPE; i.e. v = Var(ty), the temporary in poisoned storage
+		return "ok";
+	}
+	if (op == "setsub" && n == 3) {
+		// p = *p + off: operator=(const char*) with a pointer into the Var's own string
+		Path p = parsePath(t[1]);
+		if (!p.ok) return "bad-op";
+		Tgt g = resolveMut(p, guard);
+		if (!g.err.empty()) return g.err;
+		Var& v = *g.v;
+		int off = (int)num(t[2]);
+		if (!v.is(Var::STRING) || off < 0 || off > v.length()) return "badarg";
+		v = *v + off;
 		return "ok";
 	}
 	if (op == "setv" && n == 3) {
@@ -320,7 +361,7 @@ static std::string step(const Toks& t0)
 		if (!p.ok) return "bad-op";
 		const std::string& k = t[2];
 		if (k == "d" || k == "f") { if (n != 5) return "bad-op"; }
-		else if (k == "i" || k == "u" || k == "l" || k == "L" || k == "UL" || k == "b" || k == "s" || k == "c") { if (n != 4) return "bad-op"; }
+		else if (k == "i" || k == "u" || k == "l" || k == "L" || k == "UL" || k == "Q" || k == "b" || k == "s" || k == "c") { if (n != 4) return "bad-op"; }
 		else return "bad-op";
 		Tgt g = resolveMut(p, guard);
 		if (!g.err.empty()) return g.err;
@@ -334,6 +375,7 @@ static std::string step(const Toks& t0)
 		else if (k == "l") v << (Long)num(t[3]);
 		else if (k == "L") v << (long)num(t[3]);
 		else if (k == "UL") v << (unsigned long)num(t[3]);
+		else if (k == "Q") v << (ULong)unum(t[3]);
 		else if (k == "d") v << litD(t, 3);
 		else if (k == "f") v << (float)litD(t, 3);
 		else if (k == "b") v << (t[3] == "1");
@@ -419,7 +461,7 @@ static std::string step(const Toks& t0)
 		std::string err;
 		const Var* src = resolveConst(q, err);
 		if (!src) return err;
-		replaceSlot(k, new Var(src->clone()));
+		replaceSlot(k, NEWVAR(src->clone()));
 		return "ok";
 	}
 	if (op == "copy" && n == 3) {
@@ -429,13 +471,13 @@ static std::string step(const Toks& t0)
 		std::string err;
 		const Var* src = resolveConst(q, err);
 		if (!src) return err;
-		replaceSlot(k, new Var(*src));
+		replaceSlot(k, NEWVAR(*src));
 		return "ok";
 	}
 	if (op == "drop" && n == 2) {
 		int k = (int)num(t[1]);
 		if (k < 0 || k >= NS) return "bad-op";
-		replaceSlot(k, new Var);
+		replaceSlot(k, NEWVAR);
 		return "ok";
 	}
 	if (op == "ctor" && n >= 3) {
@@ -444,8 +486,8 @@ static std::string step(const Toks& t0)
 		const std::string& c = t[2];
 		if (c == "t" && n == 4) {
 			bool tok; Var::Type ty = typeOf(t[3], tok);
-			if (!tok || ty == Var::NUMBER || ty == Var::BOOL || ty == Var::INT || ty == Var::FLOAT) return tok ? "badarg" : "bad-op";
-			replaceSlot(k, new Var(ty));
+			if (!tok) return "bad-op";
+			replaceSlot(k, NEWVAR(ty));
 			return "ok";
 		}
 		if ((c == "arr" || c == "list") && n >= 4) {
@@ -463,21 +505,21 @@ static std::string step(const Toks& t0)
 				}
 			}
 			if (c == "arr") {
-				if (kind == "i") { Array<int> a; for (size_t i = 4; i < n; i++) a << (int)num(t[i]); replaceSlot(k, new Var(a)); }
-				else if (kind == "s") { Array<String> a; for (size_t i = 4; i < n; i++) a << S(unhex(t[i])); replaceSlot(k, new Var(a)); }
-				else { Array<double> a; for (size_t i = 0; i < dv.size(); i++) a << dv[i]; replaceSlot(k, new Var(a)); }
+				if (kind == "i") { Array<int> a; for (size_t i = 4; i < n; i++) a << (int)num(t[i]); replaceSlot(k, NEWVAR(a)); }
+				else if (kind == "s") { Array<String> a; for (size_t i = 4; i < n; i++) a << S(unhex(t[i])); replaceSlot(k, NEWVAR(a)); }
+				else { Array<double> a; for (size_t i = 0; i < dv.size(); i++) a << dv[i]; replaceSlot(k, NEWVAR(a)); }
 				return "ok";
 			}
 			if (kind == "i") {
 				int x[4] = { 0, 0, 0, 0 };
 				for (size_t i = 0; i < m; i++) x[i] = (int)num(t[4 + i]);
-				Var* v = m == 1 ? new Var{ x[0] } : m == 2 ? new Var{ x[0], x[1] } : m == 3 ? new Var{ x[0], x[1], x[2] } : new Var{ x[0], x[1], x[2], x[3] };
+				Var* v = m == 1 ? NEWVAR{ x[0] } : m == 2 ? NEWVAR{ x[0], x[1] } : m == 3 ? NEWVAR{ x[0], x[1], x[2] } : NEWVAR{ x[0], x[1], x[2], x[3] };
 				replaceSlot(k, v);
 			}
 			else {
 				double x[4] = { 0, 0, 0, 0 };
 				for (size_t i = 0; i < m; i++) x[i] = dv[i];
-				Var* v = m == 1 ? new Var{ x[0] } : m == 2 ? new Var{ x[0], x[1] } : m == 3 ? new Var{ x[0], x[1], x[2] } : new Var{ x[0], x[1], x[2], x[3] };
+				Var* v = m == 1 ? NEWVAR{ x[0] } : m == 2 ? NEWVAR{ x[0], x[1] } : m == 3 ? NEWVAR{ x[0], x[1], x[2] } : NEWVAR{ x[0], x[1], x[2], x[3] };
 				replaceSlot(k, v);
 			}
 			return "ok";
@@ -490,12 +532,12 @@ static std::string step(const Toks& t0)
 			if (kind == "i") {
 				Dic<int> d;
 				for (size_t i = 4; i < n; i++) { size_t e = t[i].find('='); d[S(unhex(t[i].substr(0, e)))] = (int)num(t[i].substr(e + 1)); }
-				replaceSlot(k, new Var(d));
+				replaceSlot(k, NEWVAR(d));
 			}
 			else {
 				Dic<String> d;
 				for (size_t i = 4; i < n; i++) { size_t e = t[i].find('='); d[S(unhex(t[i].substr(0, e)))] = S(unhex(t[i].substr(e + 1))); }
-				replaceSlot(k, new Var(d));
+				replaceSlot(k, NEWVAR(d));
 			}
 			return "ok";
 		}
@@ -510,8 +552,8 @@ static std::string step(const Toks& t0)
 				e[i] = resolveConst(q, err);
 				if (!e[i]) return err;
 			}
-			Var* v = m == 0 ? new Var(Var::array({})) : m == 1 ? new Var(Var::array({ *e[0] })) : m == 2 ? new Var(Var::array({ *e[0], *e[1] }))
-				: m == 3 ? new Var(Var::array({ *e[0], *e[1], *e[2] })) : new Var(Var::array({ *e[0], *e[1], *e[2], *e[3] }));
+			Var* v = m == 0 ? NEWVAR(Var::array({})) : m == 1 ? NEWVAR(Var::array({ *e[0] })) : m == 2 ? NEWVAR(Var::array({ *e[0], *e[1] }))
+				: m == 3 ? NEWVAR(Var::array({ *e[0], *e[1], *e[2] })) : NEWVAR(Var::array({ *e[0], *e[1], *e[2], *e[3] }));
 			replaceSlot(k, v);
 			return "ok";
 		}
@@ -521,23 +563,24 @@ static std::string step(const Toks& t0)
 			std::string err;
 			const Var* src = resolveConst(q, err);
 			if (!src) return err;
-			replaceSlot(k, new Var(S(unhex(t[3])), *src));
+			replaceSlot(k, NEWVAR(S(unhex(t[3])), *src));
 			return "ok";
 		}
 		if ((c == "d" || c == "f") && n == 5) {
-			if (c == "d") replaceSlot(k, new Var(litD(t, 3)));
-			else replaceSlot(k, new Var((float)litD(t, 3)));
+			if (c == "d") replaceSlot(k, NEWVAR(litD(t, 3)));
+			else replaceSlot(k, NEWVAR((float)litD(t, 3)));
 			return "ok";
 		}
 		if (n != 4) return "bad-op";
-		if (c == "i") replaceSlot(k, new Var((int)num(t[3])));
-		else if (c == "u") replaceSlot(k, new Var((unsigned)num(t[3])));
-		else if (c == "l") replaceSlot(k, new Var((Long)num(t[3])));
-		else if (c == "L") replaceSlot(k, new Var((long)num(t[3])));
-		else if (c == "UL") replaceSlot(k, new Var((unsigned long)num(t[3])));
-		else if (c == "b") replaceSlot(k, new Var(t[3] == "1"));
-		else if (c == "s") { Exact e(unhex(t[3])); replaceSlot(k, new Var(String(e.p, (int)e.n))); }
-		else if (c == "c") { Exact e(unhex(t[3])); replaceSlot(k, new Var((const char*)e.p)); }
+		if (c == "i") replaceSlot(k, NEWVAR((int)num(t[3])));
+		else if (c == "u") replaceSlot(k, NEWVAR((unsigned)num(t[3])));
+		else if (c == "l") replaceSlot(k, NEWVAR((Long)num(t[3])));
+		else if (c == "L") replaceSlot(k, NEWVAR((long)num(t[3])));
+		else if (c == "UL") replaceSlot(k, NEWVAR((unsigned long)num(t[3])));
+		else if (c == "Q") replaceSlot(k, NEWVAR((ULong)unum(t[3])));
+		else if (c == "b") replaceSlot(k, NEWVAR(t[3] == "1"));
+		else if (c == "s") { Exact e(unhex(t[3])); replaceSlot(k, NEWVAR(String(e.p, (int)e.n))); }
+		else if (c == "c") { Exact e(unhex(t[3])); replaceSlot(k, NEWVAR((const char*)e.p)); }
 		else return "bad-op";
 		return "ok";
 	}
@@ -593,19 +636,25 @@ static std::string step(const Toks& t0)
 	if (op == "get") { Var r = v(S(unhex(t[2]))); std::string out; dump(r, out); return out; }
 	if (op == "rc") { if (v.is(Var::ARRAY) || v.is(Var::OBJ)) return str(info(v).rc); return "-"; }
 	if (op == "conv") {
-		std::string si, sd;
+		std::string si, sd, sl, sq;
 		bool isstr = v.is(Var::STRING);
 		bool isnum = v.is(Var::NUMBER);
 		String text = isstr ? v.toString() : String();
-		if (isstr && !simpleDec(text)) { si = "u"; sd = "u"; }
+		if (isstr && !simpleDec(text)) { si = "u"; sd = "u"; sl = "u"; sq = "u"; }
 		else {
 			double d = (double)v;
 			sd = dy(d);
 			if (isnum && !(d > -2147483649.0 && d < 2147483648.0)) si = "u";
 			else si = str((int)v);
+			// Long / ULong: defined while the truncated value fits (the cast is undefined beyond)
+			bool fitsL = !isnum || (d >= -9223372036854775808.0 && d < 9223372036854775808.0);
+			char buf[32];
+			if (fitsL) { snprintf(buf, sizeof(buf), "%lld", (long long)(Long)v); sl = buf; } else sl = "u";
+			if (fitsL || (d >= 9223372036854775808.0 && d < 18446744073709551616.0)) { snprintf(buf, sizeof(buf), "%llu", (unsigned long long)(ULong)v); sq = buf; }
+			else sq = "u";
 		}
 		String s = v.operator String();
-		return "i=" + si + " d=" + sd + " b=" + (((bool)v) ? "1" : "0") + " s=" + hex(*s, s.length());
+		return "i=" + si + " L=" + sl + " Q=" + sq + " d=" + sd + " b=" + (((bool)v) ? "1" : "0") + " s=" + hex(*s, s.length());
 	}
 	if (op == "eqlit") {
 		const std::string& k = t[2];
